@@ -1,6 +1,8 @@
 (* C13 - property theorems only.  Model: C13_Model.v (QC steps of genotypes.py / transform.py);
    offender predicates and table shapes: C13_Proofs.v; clause checkers: C13_Check.v. *)
-From HV Require Import Prelude GenoTable C13_Model C13_Proofs C13_Check C13_Sound.
+From Coq Require Import QArith Qminmax PrimFloat.
+From HV Require Import Prelude GenoTable C13_Model C13_Proofs C13_Check C13_Sound C13_ProofsHist.
+Open Scope Z_scope.
 
 (* ---- check_missing: raises iff some allele is missing, names such a call; discard mode
         removes exactly the samples with a missing allele (rows, sample IDs, ancestry rows) *)
@@ -196,7 +198,7 @@ Theorem C13_holds_missing_sound :
   match o with
   | ORet t _ => ~ some_cell (miss_must anc) p /\ t = p
   | ORaise s v t =>
-      t = p /\ exists s' v' x, s = Some s' /\ v = Some v' /\ named_cell p s' v' = Some x /\ miss_may x = true
+      t = p /\ exists s' v', s = Some s' /\ v = Some v' /\ named_offender miss_may p s' v'
   | OOther k => False
   end.
 Proof. exact holds_missing_sound. Qed.
@@ -234,7 +236,7 @@ Theorem C13_holds_phase_sound :
       \/ (3 <= g_planes p /\ ~ some_cell unph_must p /\ t = strip_phase p)
   | ORaise s v t =>
       3 <= g_planes p /\ t = p
-      /\ exists s' v' x, s = Some s' /\ v = Some v' /\ named_cell p s' v' = Some x /\ unph_may x = true
+      /\ exists s' v', s = Some s' /\ v = Some v' /\ named_offender unph_may p s' v'
   | OOther k => False
   end.
 Proof. exact holds_phase_sound. Qed.
@@ -248,8 +250,8 @@ Theorem C13_holds_load_sound :
       ~ some_cell (miss_must (l_anc k)) (l_raw k) /\ ~ some_cell multi_must (l_raw k)
       /\ ~ some_cell unph_must (l_raw k) /\ t = strip_phase (cast_bool (l_raw k))
   | ORaise s v _ =>
-      exists s' v' x, s = Some s' /\ v = Some v' /\ named_cell (l_raw k) s' v' = Some x
-                      /\ (miss_may x = true \/ multi_may x = true \/ unph_may x = true)
+      exists s' v', s = Some s' /\ v = Some v'
+        /\ named_offender (fun x => miss_may x || multi_may x || unph_may x) (l_raw k) s' v'
   | OOther e => e = E_Unobserved
   end.
 Proof. exact holds_load_sound. Qed.
@@ -259,3 +261,138 @@ Theorem C13_unph_must_meaning :
   forall x, unph_must x = true <-> (0 <= ca x <= 253) /\ (0 <= cb x <= 253) /\ ca x <> cb x /\ cp x = 0.
 Proof. exact unph_must_spec. Qed.
 Print Assumptions C13_unph_must_meaning.
+
+(* ---- check_sorted: raises iff some variant is followed, anywhere later in the array, by a
+        variant of the same chromosome at a smaller position; otherwise nothing changes ---- *)
+
+Theorem C13_check_sorted_raises_iff :
+  forall t,
+  check_sorted t = QRaise None None
+  <-> exists l1 a l2 b l3,
+        g_variants t = l1 ++ a :: l2 ++ b :: l3 /\ vchrom a = vchrom b /\ vpos b < vpos a.
+Proof. exact check_sorted_raises_inversion. Qed.
+Print Assumptions C13_check_sorted_raises_iff.
+
+Theorem C13_check_sorted_returns_iff :
+  forall t, check_sorted t = QOk t <-> ~ inversion (g_variants t).
+Proof. exact check_sorted_returns_iff. Qed.
+Print Assumptions C13_check_sorted_returns_iff.
+
+(* ---- check_maf with the exact rational minor allele frequency: the abstract predicate
+        [rare] instantiated with  min(f, 1-f) < threshold,  f = k / (2n) ---- *)
+
+Theorem C13_maf_is_min_f_1_minus_f :
+  forall k n, (mafQ k n == Qmin (freqQ k n) (1 - freqQ k n))%Q.
+Proof. exact mafQ_min. Qed.
+Print Assumptions C13_maf_is_min_f_1_minus_f.
+
+Theorem C13_rare_exact_meaning :
+  forall thr k n, rareQ thr k n = true <-> (Qmin (freqQ k n) (1 - freqQ k n) < thr)%Q.
+Proof. exact rareQ_spec. Qed.
+Print Assumptions C13_rare_exact_meaning.
+
+Theorem C13_maf_range :
+  forall k n, 0 < n -> 0 <= k <= 2 * n -> (0 <= mafQ k n /\ mafQ k n <= 1 # 2)%Q.
+Proof. exact mafQ_range. Qed.
+Print Assumptions C13_maf_range.
+
+Theorem C13_check_maf_exact_discard :
+  forall thr warn t, wf_cols t ->
+  check_maf (rareQ thr) true true warn t
+  = QOk (cols_removed true
+           (map (fun k => Qle_bool thr (mafQ k (lenZ (g_rows t)))) (col_counts t)) t).
+Proof. exact check_maf_exact_discard. Qed.
+Print Assumptions C13_check_maf_exact_discard.
+
+Theorem C13_check_maf_exact_raises_iff :
+  forall thr t,
+  (exists v, check_maf (rareQ thr) true false false t = QRaise None v)
+  <-> exists j k, nth_error (col_counts t) j = Some k
+                  /\ (Qmin (freqQ k (lenZ (g_rows t))) (1 - freqQ k (lenZ (g_rows t))) < thr)%Q.
+Proof. exact check_maf_exact_raises_iff. Qed.
+Print Assumptions C13_check_maf_exact_raises_iff.
+
+(* ---- histories: any sequence of read() and checks on one object.  At every call the object
+        is well-formed (ancestry in step) and the outcome satisfies the property's clause for
+        the contents the object has at that moment; a read() makes the earlier history
+        irrelevant.  T / rare_of: any type of thresholds with any "rarer than" predicate. ---- *)
+
+Theorem C13_history_sound :
+  forall (T : Type) (rare_of : T -> Z -> Z -> bool) anc ops t,
+  wf t -> reads_wf T ops ->
+  Forall (fun x => wf (fst (fst x))
+                   /\ step_clause T rare_of anc (fst (fst x)) (snd (fst x)) (snd x))
+         (hrun T rare_of anc t ops).
+Proof. exact history_sound. Qed.
+Print Assumptions C13_history_sound.
+
+Theorem C13_history_call_sound :
+  forall (T : Type) (rare_of : T -> Z -> Z -> bool) anc t pre op,
+  wf t -> reads_wf T pre -> (forall f, op = HRead f -> wf f) ->
+  let cur := state_after T rare_of anc t pre in
+  wf cur /\ step_clause T rare_of anc cur op (hstep T rare_of anc cur op)
+  /\ wf (after cur (hstep T rare_of anc cur op)).
+Proof. exact history_call_sound. Qed.
+Print Assumptions C13_history_call_sound.
+
+Theorem C13_history_step :
+  forall (T : Type) (rare_of : T -> Z -> Z -> bool) anc t pre op post,
+  let cur := state_after T rare_of anc t pre in
+  hrun T rare_of anc t (pre ++ op :: post)
+  = hrun T rare_of anc t pre
+    ++ (cur, op, hstep T rare_of anc cur op)
+       :: hrun T rare_of anc (after cur (hstep T rare_of anc cur op)) post.
+Proof. exact history_step. Qed.
+Print Assumptions C13_history_step.
+
+Theorem C13_history_forgets_before_read :
+  forall (T : Type) (rare_of : T -> Z -> Z -> bool) anc t pre f post,
+  state_after T rare_of anc t (pre ++ HRead f :: post) = state_after T rare_of anc f post
+  /\ hrun T rare_of anc t (pre ++ HRead f :: post)
+     = hrun T rare_of anc t pre
+       ++ (state_after T rare_of anc t pre, HRead f, QOk f) :: hrun T rare_of anc f post.
+Proof. exact history_forgets. Qed.
+Print Assumptions C13_history_forgets_before_read.
+
+Theorem C13_read_delivers_wellformed :
+  forall ss vs f, wf f -> wf (read_sel ss vs f).
+Proof. exact wf_read_sel. Qed.
+Print Assumptions C13_read_delivers_wellformed.
+
+(* (that the executable models evaluated by the correspondence - C13_Check.model_frun of the
+   files relation, model_run of qc - are such histories, with thresholds = IEEE doubles, is
+   proved in C13_ProofsHist.v: model_frun_hrun, model_run_hrun, files_reads_wf; those statements
+   mention Coq's primitive floats and are therefore not restated in this file) *)
+
+(* the hypotheses are satisfiable, and the boundary history: read, check_phase (passes and
+   strips), read a file holding an unphased heterozygote, check_phase - which raises, naming
+   sample 2 and variant 7 of the second file *)
+Example C13_history_reread_phase :
+  let f0 := mkg [1] [gv 5 1 10] [[gc 0 1 1]] 3 None in
+  let f1 := mkg [2] [gv 7 1 12] [[gc 0 1 0]] 3 None in
+  wf f0 /\ wf f1
+  /\ map snd (hrun unit (fun _ _ _ => false) false no_table [HRead f0; HPhase; HRead f1; HPhase])
+     = [QOk f0; QOk (strip_phase f0); QOk f1; QRaise (Some 2) (Some 7)].
+Proof. exact history_reread_phase. Qed.
+Print Assumptions C13_history_reread_phase.
+
+Theorem C13_holds_maf_discard_sound :
+  forall p tq w t mf,
+  lenZ (g_rows p) <> 0 ->
+  holds_maf p (Some (Some tq)) true w (ORet t mf) = true ->
+  let mq := map (fun k => mafQ k (lenZ (g_rows p))) (col_counts p) in
+  exists keep,
+    cols_selected keep p t
+    /\ length keep = length (g_variants p)
+    /\ forall j k, nth_error keep j = Some k -> (j < length (g_variants p))%nat ->
+         (Qle_bool (nth j mq 0%Q + eps) tq && negb (Qeq_bool (nth j mq 0%Q + eps) tq) = true -> k = false)
+         /\ (Qle_bool (nth j mq 0%Q) (tq + eps) && negb (Qeq_bool (nth j mq 0%Q) tq) = false -> k = true).
+Proof. exact holds_maf_discard_sound. Qed.
+Print Assumptions C13_holds_maf_discard_sound.
+
+(* an error names an offender: some call of a sample with the named ID at a variant with the
+   named ID (IDs may repeat) satisfies the predicate *)
+Theorem C13_named_offender_sound :
+  forall f t s v, named_sat f t s v = true -> named_offender f t s v.
+Proof. exact named_sat_true. Qed.
+Print Assumptions C13_named_offender_sound.
